@@ -23,30 +23,27 @@ Definition w_target : BeaconState :=
       mkv (32 * ETH) false 0 2 FARE FARE; mkv (32 * ETH) false 0 2 FARE FARE ]
     (repeat (32 * ETH) 5) [7; 7; 7; 0; 0] [2; 2; 0; 2; 2] [0; 0; 0; 0; 0] 1.
 
+Definition cur_target_of (x : option EpochAttesterData) : option N := option_map ad_cur_target_stake x.
 Theorem altair_curr_target_orig_refuted :
   exists st : BeaconState,
-    altair_hypsb tiny_env st = true /\
-    let epc := fresh_epc tiny_env st in
+    let E := tiny_env in
+    let epc := fresh_epc E st in
     let flats := flatten_validators (validators st) in
-    let total := get_total_active_balance tiny_env st in
-    exists ad_fixed ad_orig,
-      compute_epoch_attester_data tiny_cfg epc flats st = Some ad_fixed /\
-      compute_epoch_attester_data_orig tiny_cfg epc flats st = Some ad_orig /\
-      option_map (get_total_balance tiny_env st)
-        (get_unslashed_participating_indices tiny_env st TIMELY_TARGET_FLAG_INDEX (get_current_epoch tiny_env st)) = Some (128 * ETH) /\
-      ad_cur_target_stake ad_fixed = 128 * ETH /\ ad_cur_target_stake ad_orig = 64 * ETH /\
-      (total * 2 <=? ad_cur_target_stake ad_fixed * 3) = true /\      (* the spec and the repaired code justify epoch 2 *)
-      (total * 2 <=? ad_cur_target_stake ad_orig * 3) = false.        (* the pinned snapshot does not *)
-Proof.
-  exists w_target. split; [vm_compute; reflexivity|]. cbv zeta.
-  eexists. eexists. repeat split; vm_compute; reflexivity.
-Qed.
+    let total := get_total_active_balance E st in
+    altair_hypsb E st = true /\
+    option_map (get_total_balance E st)
+      (get_unslashed_participating_indices E st TIMELY_TARGET_FLAG_INDEX (get_current_epoch E st)) = Some (128 * ETH) /\
+    cur_target_of (compute_epoch_attester_data tiny_cfg epc flats st) = Some (128 * ETH) /\
+    cur_target_of (compute_epoch_attester_data_orig tiny_cfg epc flats st) = Some (64 * ETH) /\
+    (total * 2 <=? 128 * ETH * 3) = true /\       (* the spec and the repaired code justify epoch 2 *)
+    (total * 2 <=? 64 * ETH * 3) = false.         (* the pinned snapshot does not *)
+Proof. exists w_target. vm_compute. repeat split; reflexivity. Qed.
 
 (* ---------- 2. FINDING: sum-then-apply vs sequential application ----------
    End of epoch 2, bellatrix quotients.  Validator 0 (effective balance 32 ETH) holds 1000 Gwei; in the previous
-   epoch it earned the target flag but missed source and head.  Spec: the source penalty empties the balance
-   (saturating), then the target reward is added: final balance = target reward.  zrnt: rewards and penalties are
-   summed first, the (larger) penalty is subtracted from balance + reward in one step: final balance 0.
+   epoch it earned the target flag but missed source and head.  Spec: the source penalty (1445913) empties the
+   balance (saturating at 0), then the target reward (2685267) is added: final balance 2685267.  zrnt: rewards
+   and penalties are summed first and applied once: 1000 + 2685267 - 1445913 = 1240354.
    The state satisfies every other hypothesis of altair_rewards_refines; only NoMidSaturation fails.
    (Such a balance is far below what hysteresis lets a 32 ETH effective balance keep; no reachable state under
    the mainnet/minimal configuration is known to violate NoMidSaturation.) *)
@@ -55,6 +52,11 @@ Definition w_order : BeaconState :=
     [ mkv (32 * ETH) false 0 0 FARE FARE; mkv (32 * ETH) false 0 0 FARE FARE; mkv (32 * ETH) false 0 0 FARE FARE ]
     [ 1000; 32 * ETH; 32 * ETH ] [2; 7; 7] [0; 7; 7] [0; 0; 0] 1.
 
+Definition impl_rewards (f : fork) (st : BeaconState) : option BeaconState :=
+  match compute_epoch_attester_data tiny_cfg (fresh_epc tiny_env st) (flatten_validators (validators st)) st with
+  | Some ad => process_epoch_rewards_and_penalties tiny_cfg f (fresh_epc tiny_env st) ad st
+  | None => None
+  end.
 Theorem altair_delta_order_refuted :
   exists st : BeaconState,
     let E := tiny_env in
@@ -62,15 +64,9 @@ Theorem altair_delta_order_refuted :
     (cp_epoch (finalized_checkpoint st) <=? get_previous_epoch E st) = true /\
     flag_boundsb E st 0 = true /\ flag_boundsb E st 1 = true /\ flag_boundsb E st 2 = true /\ inact_boundsb E Bellatrix st = true /\
     no_mid_saturationb E Bellatrix st = false /\
-    exists ad a b,
-      compute_epoch_attester_data tiny_cfg (fresh_epc E st) (flatten_validators (validators st)) st = Some ad /\
-      process_epoch_rewards_and_penalties tiny_cfg Bellatrix (fresh_epc E st) ad st = Some a /\
-      Epoch.process_rewards_and_penalties E Bellatrix st = Some b /\
-      nth 0 (balances a) 0 = 0 /\ nth 0 (balances b) 0 = 188416.
-Proof.
-  exists w_order. cbv zeta. repeat split; try (vm_compute; reflexivity).
-  eexists. eexists. eexists. repeat split; vm_compute; reflexivity.
-Qed.
+    option_map (fun s => nth 0 (balances s) 0) (impl_rewards Bellatrix st) = Some 1240354 /\
+    option_map (fun s => nth 0 (balances s) 0) (Epoch.process_rewards_and_penalties E Bellatrix st) = Some 2685267.
+Proof. exists w_order. vm_compute. repeat split; reflexivity. Qed.
 
 (* ---------- 3. non-vacuity ----------
    Four validators, one slashed, partial participation, an inactivity leak (finalized epoch 0, previous epoch 6,
@@ -84,9 +80,9 @@ Example altair_nonvacuous :
   let E := tiny_env in
   altair_rewards_hypsb E Altair w_ok = true /\
   is_in_inactivity_leak E w_ok = true /\
-  option_map balances (Epoch.process_rewards_and_penalties E Altair w_ok) = Some [32 * ETH; 30999885065; 29989870397; 16992810795] /\
+  option_map balances (Epoch.process_rewards_and_penalties E Altair w_ok) = Some [32000000000; 30998465585; 29995468163; 16997511401] /\
   option_map inactivity_scores (Epoch.process_inactivity_updates E w_ok) = Some [0; 8; 44; 1004].
-Proof. cbv zeta. repeat split; vm_compute; reflexivity. Qed.
+Proof. vm_compute. repeat split; reflexivity. Qed.
 
 Print Assumptions altair_rewards_refines.
 Print Assumptions inactivity_updates_refines.
